@@ -8,6 +8,7 @@ import (
 	"math/rand"
 	"os"
 	"sync"
+	"syscall"
 
 	"verifharness/vhu"
 
@@ -122,7 +123,18 @@ func raceEpochs(args []string) int {
 	epochs := fs.Int("epochs", 5, "epochs per run")
 	runs := fs.Int("runs", 3, "runs")
 	seed := fs.Int64("seed", vhu.EnvSeed(), "seed")
+	loglevel := fs.String("loglevel", "", "run with this NEAT log level (the log level is an option setting like any other); the log itself is discarded")
 	_ = fs.Parse(args)
+	if *loglevel != "" {
+		// the loggers write to the standard output they captured at package initialisation: point descriptor 1 at /dev/null
+		if dn, err := os.OpenFile(os.DevNull, os.O_WRONLY, 0); err == nil {
+			_ = syscall.Dup3(int(dn.Fd()), 1, 0)
+		}
+		if err := neat.InitLogger(*loglevel); err != nil {
+			fmt.Fprintln(os.Stderr, err)
+			return 2
+		}
+	}
 	rep := &vhu.Report{Command: "race-epochs"}
 	multi := 0
 	firstEpochSpecies := []int{}
